@@ -27,6 +27,7 @@ JumpOk(e) ==
   /\ (r.status = "unknown" => PrintT(<<"UNKNOWN", sc, l>>))
   /\ Req("C01", r.status \in {"left", "unknown"} /\ ((r.status = "left" /\ e.fake_known) => r.pc = e.fake))
   /\ Req("C13", r.status = "left" => r.written \subseteq X64Scratch)
+  /\ Req("C14", r.status \in {"left", "unknown"} /\ ((r.status = "left" /\ e.fake_known) => r.pc = e.fake))
   \* transparency presupposes arrival: the fake that receives the arguments is the one that was installed
   /\ Req("C13", r.status \in {"left", "unknown"} /\ ((r.status = "left" /\ e.fake_known) => r.pc = e.fake))
 
@@ -59,12 +60,17 @@ Called ==
           /\ Req("C13", (s.ins.outcome = "ok" /\ s.ins.kind = "jump") => Ev.res = s.ins.want)
           /\ Req("C10", (s.ins.outcome = "ok" /\ s.ins.kind = "bool") => Ev.res = s.ins.want)
           /\ Req("C01", s.ins.outcome = "panic" => Ev.res = s.ins.orig_id)
-     ELSE Req("C02", Ev.res = s.ins.orig_id)
+          /\ Req("C14", Ev.res = (IF s.ins.outcome = "ok" THEN s.ins.want ELSE s.ins.orig_id))
+     ELSE /\ Req("C02", Ev.res = s.ins.orig_id)
+          /\ Req("C14", Ev.res = s.ins.orig_id)
   /\ s' = s
 
 Neighbour ==
   /\ Step("Neighbour")
   /\ Req("C03", Ev.res = Ev.want)
+  /\ Req("C10", Ev.res = Ev.want)      \* "no other observable effect"
+  /\ Req("C14", Ev.res = Ev.want)      \* other threads see the fake, siblings keep their bodies
+  /\ Req("C02", Ev.res = Ev.want)
   /\ s' = s
 
 Dropped ==
@@ -77,6 +83,33 @@ ChildExit ==
   /\ Step("ChildExit")
   /\ Req("ALL", Ev.signal = 0 /\ Ev.code = 0)
   /\ s' = [s EXCEPT !.crashed = (Ev.signal # 0)]
+
+\* several targets through one injector, several lifetimes in one process (kernel-placed trampolines)
+MInstalled ==
+  /\ Step("MInstalled")
+  /\ Req("C01", Ev.outcome = "ok")
+  /\ Req("C11", Ev.outcome = "ok" => (Ev.new_mappings = 1 /\ Le(AbsDiff(Ev.tramp, Ev.func), R128)))
+  /\ Req("C12", Ev.outcome = "ok" => Ev.new_mappings = 1)
+  /\ s' = s
+\* the bytes every call runs through, read after ALL installations of the lifetime, executed on the X64 model
+MState ==
+  /\ Step("MState")
+  /\ Req("C01", Ev.tramp_mapped)
+  /\ (Ev.tramp_mapped => JumpOk(Ev))
+  /\ s' = s
+MCalled ==
+  /\ Step("MCalled")
+  /\ Req("C01", Ev.phase = "installed" => Ev.res = Ev.want)
+  /\ Req("C11", Ev.phase = "installed" => Ev.res = Ev.want)
+  /\ Req("C13", Ev.phase = "installed" => Ev.res = Ev.want)
+  /\ Req("C02", Ev.phase = "dropped" => Ev.res = Ev.want)
+  /\ Req("C03", Ev.res = Ev.want)
+  /\ s' = s
+MDropped ==
+  /\ Step("MDropped")
+  /\ Req("C02", Ev.restored)
+  /\ Req("C12", Ev.live = 0 /\ s.pend = {})
+  /\ s' = s
 
 Mmap == Step("Mmap") /\ s' = IF Ev.ok THEN [s EXCEPT !.pend = @ \cup {Ev.name}] ELSE s
 Munmap ==
@@ -94,7 +127,7 @@ Write ==
 Other == l <= Last(sc) /\ Ev.ev \in {"Note", "Mprotect", "Flush", "Target"}
          /\ l' = l + 1 /\ sc' = sc /\ s' = s
 
-TraceNext == Place \/ Installed \/ Called \/ Neighbour \/ Dropped \/ ChildExit \/ Mmap \/ Munmap \/ Write \/ Other
+TraceNext == MInstalled \/ MState \/ MCalled \/ MDropped \/ Place \/ Installed \/ Called \/ Neighbour \/ Dropped \/ ChildExit \/ Mmap \/ Munmap \/ Write \/ Other
 TraceSpec == TraceInit /\ [][TraceNext]_tvars
 Track == TrackProgress(sc, l)
 Post == PrintProgress
